@@ -88,6 +88,7 @@ class Module:
         # numpy alias(es) used in this module
         self.np_alias = set()
         self.imports = {}      # local name -> dotted origin
+        self._star = []
         for node in ast.walk(self.tree):
             if isinstance(node, ast.Import):
                 for a in node.names:
@@ -95,8 +96,70 @@ class Module:
                     if a.name == "numpy":
                         self.np_alias.add(a.asname or "numpy")
             elif isinstance(node, ast.ImportFrom):
+                pkg = rel.rsplit("/", 1)[0].replace("/", ".") if "/" in rel else ""
+                modname = node.module or ""
+                if node.level:              # from . import x / from ._p import f
+                    up = pkg.split(".")[:len(pkg.split(".")) - (node.level - 1)] if pkg else []
+                    modname = ".".join(up + ([modname] if modname else []))
                 for a in node.names:
-                    self.imports[a.asname or a.name] = "%s.%s" % (node.module, a.name)
+                    if a.name == "*":
+                        self._star.append(modname)
+                        continue
+                    self.imports[a.asname or a.name] = "%s.%s" % (modname, a.name)
+        # every function / class / lambda knows the module whose globals it sees
+        for node in ast.walk(self.tree):
+            if isinstance(node, (ast.FunctionDef, ast.ClassDef, ast.Lambda, ast.AsyncFunctionDef)):
+                node._xmod = self
+        self._reexport()
+
+    def _reexport(self):
+        """names imported back from a PRIVATE module of the package (`from xfab._rotations import u_to_rod`): the public name is
+        still a function of this module for every look-up by name; the node keeps its defining module (`_xmod`), and the
+        evaluators run it there"""
+        def private(dotted_mod):
+            parts = dotted_mod.split(".")
+            return len(parts) >= 2 and parts[0] == "xfab" and parts[-1].startswith("_") and not parts[-1].startswith("__")
+        todo = []
+        for local, dotted in list(self.imports.items()):
+            m, _, name = dotted.rpartition(".")
+            if private(m):
+                todo.append((local, m, name))
+        for m in self._star:
+            if private(m):
+                todo.append(("*", m, "*"))
+        for local, m, name in todo:
+            prel = m.replace(".", "/") + ".py"
+            if prel == self.rel or prel in _LOADING:
+                continue
+            _LOADING.add(prel)
+            try:
+                other = module(prel)
+            except AnalysisError:
+                continue
+            finally:
+                _LOADING.discard(prel)
+            if name == "*":
+                allnames = None
+                if "__all__" in other.assigns:
+                    try:
+                        allnames = list(ast.literal_eval(other.assigns["__all__"].value))
+                    except Exception:
+                        allnames = None
+                for nm, fn in list(other.functions.items()) + list(other.classes.items()):
+                    if (allnames is None and not nm.startswith("_")) or (allnames is not None and nm in allnames):
+                        tgt = self.functions if isinstance(fn, ast.FunctionDef) else self.classes
+                        tgt.setdefault(nm, fn)
+                for nm in other.assigns:
+                    if (allnames is None and not nm.startswith("_")) or (allnames is not None and nm in allnames):
+                        if nm not in self.assigns and nm not in self.functions:
+                            self.imports.setdefault(nm, "%s.%s" % (m, nm))
+                continue
+            if name in other.functions and local not in self.functions:
+                self.functions[local] = other.functions[name]
+                self.imports.pop(local, None)
+            elif name in other.classes and local not in self.classes:
+                self.classes[local] = other.classes[name]
+                self.imports.pop(local, None)
 
     def func(self, name: str) -> ast.FunctionDef:
         if name not in self.functions:
@@ -120,6 +183,9 @@ class Module:
         return [n for n in c.body if isinstance(n, ast.FunctionDef) and n.name == name]
 
 
+_LOADING = set()
+
+
 def module(rel: str) -> Module:
     if rel not in _MODCACHE:
         _MODCACHE[rel] = Module(rel)
@@ -139,6 +205,9 @@ def all_repo_python_files():
 
 def loc(mod: Module | str, node) -> str:
     rel = mod.rel if isinstance(mod, Module) else mod
+    home = getattr(node, "_xmod", None)
+    if home is not None and isinstance(mod, Module):
+        rel = home.rel      # a function imported back from a private module is reported where it is written
     return "%s:%s" % (rel, getattr(node, "lineno", "?"))
 
 
